@@ -82,10 +82,13 @@ def replay(case):
                     if sch == 'explicit_euler':
                         sol = ode.explicit_euler(A, x0, steps, threshold=0, max_rank=200, normalize=normalize, progress=False)
                     elif sch == 'implicit_euler':
-                        sol = ode.implicit_euler(A, x0, guess, steps, repeats=1, tt_solver=solver, threshold=0,
+                        # at maximal ranks the initial value itself is passed as initial guess (one object in two roles)
+                        g_ = x0 if (list(x0.ranks) == list(guess.ranks) and normalize == 0) else guess
+                        sol = ode.implicit_euler(A, x0, g_, steps, repeats=1, tt_solver=solver, threshold=0,
                                                  max_rank=np.inf, micro_solver=micro, normalize=normalize, progress=False)
                     elif sch == 'trapezoidal_rule':
-                        sol = ode.trapezoidal_rule(A, x0, guess, steps, repeats=1, tt_solver=solver, threshold=0,
+                        g_ = x0 if (list(x0.ranks) == list(guess.ranks) and normalize == 0) else guess
+                        sol = ode.trapezoidal_rule(A, x0, g_, steps, repeats=1, tt_solver=solver, threshold=0,
                                                    max_rank=np.inf, micro_solver=micro, normalize=normalize, progress=False)
                     else:
                         if normalize:
